@@ -1577,7 +1577,9 @@ class Tensor:
             # have nothing to swap and stay empty
             def swap(fiber):
                 if fiber.isEmpty():
-                    return fiber._newFiber([], [], default=Fiber())
+                    # Note: not _newFiber(), it would bring the shape of this
+                    #       rank along, but the result holds the other rank
+                    return Fiber(default=Fiber())
 
                 return fiber.swapRanks()
 
